@@ -45,6 +45,14 @@ def setup(root):
 def gen_case(rng, tier):
     case = S.gen_workload(rng, faults=False)
     case['power_seed'] = rng.getrandbits(32)
+    if rng.random() < 0.3:
+        # recovery workload: an earlier save to the same destination died mid-way
+        first = S.gen_workload(rng, faults=False)
+        for k in ('part_file', 'dest_rel', 'umask', 'dest_initial'):
+            first[k] = case[k]
+        case['dest_initial'] = None          # the pre-state is whatever the first save left
+        case['prior'] = {'case': first, 'crash_at': rng.randint(0, 30)}
+        case['overwrite_part'] = rng.random() < 0.7
     return case
 
 
@@ -72,6 +80,20 @@ def fixed_cases(tier):
                                           'buffering': -1, 'blksize': blk, 'umask': 0o022, 'dest_rel': False,
                                           'dest_initial': {'data': b'OLD CONTENT'.hex(), 'mode': 0o644} if present else None,
                                           'body': body, 'power_seed': 1})
+        # recovery floor: the first save (overwrite False/True, destination absent/present) dies at
+        # each of its crash points; the second save runs with overwrite_part on
+        for ow1 in (False, True):
+            for present in (False, True):
+                first = {'text_mode': False, 'overwrite': ow1, 'part_file': None, 'buffering': -1, 'blksize': 8,
+                         'umask': 0o022, 'dest_rel': False,
+                         'dest_initial': {'data': b'OLD CONTENT'.hex(), 'mode': 0o644} if present else None,
+                         'body': [['write', b'first save content'.hex()]]}
+                for k1 in range(0, 16):
+                    for ow2 in (True, False):
+                        cases.append({'text_mode': False, 'overwrite': ow2, 'overwrite_part': True, 'part_file': None,
+                                      'buffering': -1, 'blksize': 8, 'umask': 0o022, 'dest_rel': False,
+                                      'dest_initial': None, 'body': [['write', b'second'.hex()], ['write', b' save!'.hex()]],
+                                      'power_seed': 2, 'prior': {'case': first, 'crash_at': k1}})
         _FIXED = cases
     return _FIXED
 
@@ -99,11 +121,33 @@ def run_case(case):
     out = core.Outcome()
     log = core.EventLog(keep=False)
     dest_arg, dest, part = S.paths(case)
-    old = bytes.fromhex(case['dest_initial']['data']) if case.get('dest_initial') else None
-    new = S.new_content(case)
-    refused = (old is not None and not case.get('overwrite', True))
+    prior = case.get('prior')
 
-    base = S.run_save(case, simfs.Plan(), log)
+    def start_fs():
+        return S.fs_after_prior(prior) if prior else None
+
+    if prior:
+        # recovery workload: this save starts from what an earlier save left behind when the
+        # process died at one of its crash points
+        fs0 = start_fs()
+        if fs0 is None:
+            out.digest = log.digest()
+            return out                      # the earlier save has no such crash point
+        old = fs0.read_path(dest)
+        log.add('prior', prior['crash_at'], sorted(fs0.dir.items()))
+        out.probe('recovery_after_earlier_crash')
+        if fs0.lookup(part) is not None:
+            out.probe('recovery_with_stale_part_file')
+            if fs0.lookup(part) == fs0.lookup(dest):
+                out.probe('recovery_with_part_hardlinked_to_dest')
+        stale_part = fs0.lookup(part) is not None and not case.get('overwrite_part', False)
+    else:
+        old = bytes.fromhex(case['dest_initial']['data']) if case.get('dest_initial') else None
+        stale_part = False
+    new = S.new_content(case)
+    refused = (old is not None and not case.get('overwrite', True)) or stale_part
+
+    base = S.run_save(case, simfs.Plan(), log, fs=start_fs())
     N = base.sim.n
     out.steps = N
     # ---- fault-free run: A4, A2, A3 ------------------------------------------------------
@@ -112,7 +156,7 @@ def run_case(case):
     elif refused:
         if base.exc is None:
             out.fail('overwrite-refusal-missing', N, 'overwrite=False with an existing destination did not raise')
-        elif base.fs.read_path(dest) != old or base.fs.lookup(part) is not None:
+        elif base.fs.read_path(dest) != old or (base.fs.lookup(part) is not None and not prior):
             out.fail('normal-exit-wrong-dest', N, 'refused save changed the destination or left a part file')
     else:
         got = base.fs.read_path(dest)
@@ -134,7 +178,7 @@ def run_case(case):
     crash_runs = images = 0
     if out.violation is None:
         for k in points:
-            r = S.run_save(case, simfs.Plan(crash_at=k), log)
+            r = S.run_save(case, simfs.Plan(crash_at=k), log, fs=start_fs())
             crash_runs += 1
             out.steps += r.sim.n
             if not r.crashed:
@@ -229,6 +273,18 @@ def _wl_key(case):
     return {k: v for k, v in case.items() if k not in ('crash_points', 'power_seed')}
 
 
+def _prior_shrink(c, fails):
+    if not c.get('prior'):
+        return c
+    c2 = dict(c)
+    c2.pop('prior')
+    if fails(c2):
+        return c2
+    p = c['prior']
+    small = shrinkers.shrink_list_field(p['case'], 'body', lambda pc: fails(dict(c, prior={'case': pc, 'crash_at': p['crash_at']})))
+    return dict(c, prior={'case': small, 'crash_at': p['crash_at']})
+
+
 def _check_order(r, dest, new, out, step):
     """A2: at the instant a name is bound to the part file's inode its kernel-visible data is
     the complete new content, fully synced, and nothing is written to it afterwards."""
@@ -256,6 +312,7 @@ def shrink(case, fails):
         c2['crash_points'] = [o.violation['step']]
         if fails(c2):
             c = c2
+    c = _prior_shrink(c, fails)
     c = shrinkers.shrink_list_field(c, 'body', fails)
     for simple in ({'part_file': None}, {'dest_rel': False}, {'umask': 0o022}, {'buffering': -1},
                    {'blksize': 8192}, {'blksize': 8}, {'text_mode': False}):
